@@ -15,6 +15,7 @@ import (
 	"math/rand"
 	"strings"
 	"testing"
+	"time"
 
 	"github.com/ava-labs/avalanchego/database"
 	"github.com/ava-labs/avalanchego/ids"
@@ -46,6 +47,10 @@ type Op struct {
 	Floor uint64 `json:"floor,omitempty"`
 	Now   int64  `json:"now,omitempty"`
 	Items []Item `json:"items,omitempty"`
+	// Probe (isrepeat directly after an accept): the query is started from inside Accept, at the moment Accept
+	// asks the block for its containers, on another goroutine. Accept must be atomic with respect to queries,
+	// so the answer has to be the one of a query issued after Accept returned.
+	Probe bool `json:"probe,omitempty"`
 }
 
 type Out struct {
@@ -91,6 +96,7 @@ type execBlock struct {
 	ts         int64
 	items      []container
 	set        map[ids.ID]struct{}
+	hook       func() // called (once) by GetContainers while set; see Op.Probe
 }
 
 func (b *execBlock) GetID() ids.ID             { return b.id }
@@ -98,7 +104,13 @@ func (b *execBlock) GetParent() ids.ID         { return b.parent }
 func (b *execBlock) GetTimestamp() int64       { return b.ts }
 func (b *execBlock) GetHeight() uint64         { return b.height }
 func (b *execBlock) GetBytes() []byte          { return b.id[:] }
-func (b *execBlock) GetContainers() []container { return b.items }
+func (b *execBlock) GetContainers() []container {
+	if h := b.hook; h != nil {
+		b.hook = nil
+		h()
+	}
+	return b.items
+}
 func (b *execBlock) Contains(id ids.ID) bool   { _, ok := b.set[id]; return ok }
 func (b *execBlock) String() string            { return fmt.Sprintf("blk(%d)", b.height) }
 
@@ -159,7 +171,12 @@ func runScenario(sc Scenario) []Out {
 	tvw := newWindow(idx, g, sc.W)
 	floor := uint64(0)
 	outs := make([]Out, 0, len(sc.Ops))
-	for _, op := range sc.Ops {
+	skip := false
+	for i, op := range sc.Ops {
+		if skip { // executed as the probe of the preceding accept
+			skip = false
+			continue
+		}
 		blk, ok := all[op.B]
 		if !ok && op.K != "reject" {
 			outs = append(outs, Out{K: "bad"})
@@ -178,6 +195,40 @@ func runScenario(sc Scenario) []Out {
 			}
 			outs = append(outs, Out{K: "v", Code: code})
 		case "accept":
+			if i+1 < len(sc.Ops) && sc.Ops[i+1].Probe && sc.Ops[i+1].K == "isrepeat" {
+				if pb, ok := all[sc.Ops[i+1].B]; ok {
+					q := sc.Ops[i+1]
+					res := make(chan Out, 1)
+					blk.hook = func() {
+						go func() {
+							items := mkItems(q.Items)
+							bits, err := tvw.IsRepeat(ctx, pb, q.Now, items)
+							o := Out{K: "i", Flag: err != nil, Bits: make([]bool, len(items))}
+							for j := range items {
+								o.Bits[j] = bits.Contains(j)
+							}
+							res <- o
+						}()
+						// give the query the chance to run inside the gap, if there is one
+						select {
+						case o := <-res:
+							res <- o
+						case <-time.After(15 * time.Millisecond):
+						}
+					}
+					tvw.Accept(blk)
+					blk.hook = nil
+					outs = append(outs, Out{K: "u"})
+					select {
+					case o := <-res:
+						outs = append(outs, o)
+					case <-time.After(10 * time.Second):
+						outs = append(outs, Out{K: "bad"})
+					}
+					skip = true
+					continue
+				}
+			}
 			tvw.Accept(blk)
 			outs = append(outs, Out{K: "u"})
 		case "reject":
@@ -654,7 +705,34 @@ func gen(r *rand.Rand) Scenario {
 	}
 	g := genTree(r, kind)
 	genOps(g, kind == "wildops")
+	addProbes(g)
 	return g.sc
+}
+
+// addProbes inserts, after about half of the Accept calls, an IsRepeat query on the accepted block that the driver
+// issues from inside Accept (Op.Probe): the items of the accepted block plus random ones, at a time inside the window.
+func addProbes(g *genState) {
+	all := map[uint64]Block{}
+	for _, b := range g.sc.Blocks {
+		if _, dup := all[b.ID]; !dup {
+			all[b.ID] = b
+		}
+	}
+	var ops []Op
+	for _, o := range g.sc.Ops {
+		ops = append(ops, o)
+		b, ok := all[o.B]
+		if o.K != "accept" || !ok || g.r.Intn(2) == 0 {
+			continue
+		}
+		items := append([]Item{}, b.Items...)
+		items = append(items, g.randItems()...)
+		if len(items) > 6 {
+			items = items[:6]
+		}
+		ops = append(ops, Op{K: "isrepeat", B: b.ID, Now: b.Ts + int64(g.r.Intn(3)), Items: items, Probe: true})
+	}
+	g.sc.Ops = ops
 }
 
 // exhaustive-ish enumeration for the thorough tier: a chain of 4 blocks plus one fork block, one item,
